@@ -1,1 +1,3 @@
 import TR.Ring
+import TR.Leptond
+import TR.HandoffRoll
